@@ -25,6 +25,7 @@ func checkC19(p *Prog, r *Report) {
 	ruleFill(p, r)
 	ruleOffs(p, r)
 	ruleConvDispatch(p, r)
+	ruleTblFill(p, r)
 	r.Floor("DISPATCH", 3)
 	r.Floor("FILL", 4)
 	r.Floor("OFFS", 3)
